@@ -375,9 +375,56 @@ def run(chk, F):
     c10.rule_r5(chk, F, rid="C14.R4")
     c10.rule_r8(chk, F, rid="C14.R7")
     rule_r5(chk, F)
+    rule_r8(chk, F)
     chk.assumptions += [
         "decides provenance of positions, agreement of trap tables and flush-before-_exit; correctness of the "
         "recorded line after inlining/optimisation and frame-walk correctness are not decided",
         "masm/arm64.rs (cfg(aarch64)) is not analysed on this host",
     ]
     from rules import a64; a64.run_c14(chk, F)  # noqa: E702  arm64 siblings (aarch64 fact set)
+
+
+def rule_r8(chk, F):
+    """C14.R8: the baseline compiler records the source position of an out-of-line trap (assert, …) in the slow path it
+    queues, from the `location` of the very operation being compiled.  A method of the BaselineAssembler that takes a
+    Location and queues a slow-path record with it must do so on *every* path: re-using a record queued for an earlier
+    operation re-uses that operation's position (the second assert of a function is reported on the first one's
+    line).  Same discipline as R5 for the optimizing compiler's inline records."""
+    r = chk.rule("C14.R8", "every BaselineAssembler method that queues a slow-path record carrying its `location` "
+                           "parameter does so on every path (one record, with this operation's position, per operation)")
+    c = F.crate("dora_cannon_compiler")
+    n = 0
+    for p, mb in sorted(c.mir.items()):
+        if "asm::BaselineAssembler" not in p or "{closure" in p:
+            continue
+        B = cfg.Body(mb)
+        loc_params = [i for i in range(1, B.argc + 1) if B.local_ty(i).endswith("Location")]
+        if not loc_params:
+            continue
+        defs = cfg.simple_defs(B)
+        push_blocks = set()
+        for blk_i, blk in enumerate(B.blocks):
+            if blk["c"]:
+                continue
+            for s_ in blk["s"]:
+                if s_[0] == "a" and s_[2][0] == "agg" and s_[2][1][0] == "adt" and \
+                        s_[2][1][1].endswith("SlowPathKind"):
+                    ops = s_[2][2]
+                    if any((lambda o: o[0] == "param" and o[1] in loc_params)(cfg.origin(B, op, defs)) for op in ops
+                           if op[0] in ("c", "m")):
+                        push_blocks.add(blk_i)
+        if not push_blocks:
+            continue
+        n += 1
+        # must-pass-through: no normal return is reachable from the entry when the record-building blocks are avoided
+        reach = B.reachable(0, avoid=push_blocks)
+        leak = [e for e in B.exits() if e in reach and e not in push_blocks]
+        r.instance("%s:record-per-operation" % p, sample={"method": last(p), "record_blocks": len(push_blocks),
+                                                           "paths_without_record": bool(leak)})
+        if leak:
+            r.violation("%s:path-without-its-own-slow-path-record" % p,
+                        "%s can return without queueing a slow-path record that carries this call's `location`: the "
+                        "operation then shares the out-of-line code — and the recorded source position — of an earlier "
+                        "one (the second failing assert of a function is reported on the first assert's line)"
+                        % last(p), B.file)
+    r.floor("BaselineAssembler methods that queue a slow-path record with their location", n, 3)
